@@ -270,7 +270,13 @@ class TorchDistribution:
         :return: Log probability of the action.
         :rtype: torch.Tensor
         """
-        _action = action if not self.squash_output else self.sampled_action
+        # NOTE: Evaluate the density of the passed action (and not of the latest
+        # sample) by inverting the squashing
+        _action = (
+            action
+            if not self.squash_output
+            else torch.atanh(action.clamp(-1.0 + 1e-6, 1.0 - 1e-6))
+        )
 
         log_prob = self._handler.log_prob(self.distribution, _action)
 
